@@ -518,6 +518,7 @@ func (t *loopTr) prefixReslice(s *ast.AssignStmt, o types.Object, hi ast.Expr) [
 		t.fail(s, "`%s = %s[:k]` is only supported once, as a statement of the function body itself, for a parameter that is not assigned otherwise", name, name)
 	}
 	k := t.kindOf(o.Type(), s)
+	t.capSens[o] = true
 	var n string
 	if tv := t.typeOf(hi); tv.Value != nil {
 		c := constant.ToInt(tv.Value)
